@@ -221,10 +221,28 @@ def san_env():
 
 
 # ------------------------------------------------------------------- Coq
+COQPROJECT_HEADER = """-Q . VV
+-arg -w -arg -notation-overridden,-deprecated-hint-without-locality,-deprecated-instance-without-locality,-ambiguous-paths
+"""
+
+
+def coq_project_text():
+    vs = []
+    for dp, dn, fn in os.walk(COQ):
+        dn.sort()
+        for f in sorted(fn):
+            if f.endswith(".v") and not f.startswith("."):
+                vs.append(os.path.relpath(os.path.join(dp, f), COQ))
+    return COQPROJECT_HEADER + "\n".join(sorted(vs)) + "\n"
+
+
 def coq_makefile():
+    """_CoqProject lists every .v under coq/ (regenerated when the set of
+    files changes), Makefile from coq_makefile"""
     mk = os.path.join(COQ, "Makefile")
     cp = os.path.join(COQ, "_CoqProject")
-    if not os.path.exists(mk) or os.path.getmtime(mk) < os.path.getmtime(cp):
+    changed = write_if_changed(cp, coq_project_text())
+    if changed or not os.path.exists(mk) or os.path.getmtime(mk) < os.path.getmtime(cp):
         rc, out = sh(["coq_makefile", "-f", "_CoqProject", "-o", "Makefile"], cwd=COQ)
         if rc != 0:
             raise BuildError("coq_makefile: " + out)
@@ -467,11 +485,19 @@ def run_lines(exe, text, timeout=1200, env=None):
 
 # ------------------------------------------------------------ bookkeeping
 def known_findings():
+    """known_findings.json plus not-yet-merged per-property fragments
+    findings/Cnn.json (same entry format; merged by tools/merge.py)"""
+    out = []
     p = os.path.join(VERIF, "known_findings.json")
-    if not os.path.exists(p):
-        return []
-    with open(p) as f:
-        return json.load(f).get("findings", [])
+    if os.path.exists(p):
+        with open(p) as f:
+            out += json.load(f).get("findings", [])
+    for fp in sorted(glob.glob(os.path.join(VERIF, "findings", "*.json"))):
+        with open(fp) as f:
+            for e in json.load(f).get("findings", []):
+                if not any(o.get("property") == e.get("property") and o.get("key") == e.get("key") for o in out):
+                    out.append(e)
+    return out
 
 
 class Check:
